@@ -388,6 +388,8 @@ class BitSet(BaseBitSet):
 
     def discard(self, i):
         bucket = i >> 3
+        if bucket >= len(self.bits):
+            return
         self.bits[bucket] &= ~(1 << (i & 7))
 
     def _resize_to_other(self, other):
